@@ -25,7 +25,7 @@ RULE = ("(a) redis 2 consumers x 1 message: all C(10,5)=252 orders of the 5+5 ga
 ASSUMPTIONS = ["Redis and RabbitMQ are wire-level fakes; the gate delays a client's command at the server, which is what arbitrary network latency can do",
                "redis priority polling order pinned (priorities_distribution 1/0/0) in the exhaustive enumeration so that a take is exactly five commands"]
 EVAL_COUNTER = "scenarios_judged"
-REQUIRED = ["scenarios_judged", "exhaustive_orders", "gated_random_runs", "mem_offset_runs", "multi_worker_runs", "deliveries_seen", "relay_runs", "relay_returns", "relay_finish_while_other_holds", "relay_handover_patterns", "maintenance_while_held", "finish_while_take_in_flight", "stops_while_other_worker_runs", "handover_windows_seen", "timezone_offset_runs", "jobs_retried_without_backoff"]
+REQUIRED = ["scenarios_judged", "exhaustive_orders", "gated_random_runs", "mem_offset_runs", "multi_worker_runs", "deliveries_seen", "relay_runs", "relay_returns", "relay_finish_while_other_holds", "relay_handover_patterns", "maintenance_while_held", "finish_while_take_in_flight", "stops_while_other_worker_runs", "handover_windows_seen", "timezone_offset_runs", "jobs_retried_without_backoff", "handovers_from_a_slowly_unwinding_execution"]
 CASE_TIMEOUT = 150
 
 
@@ -60,6 +60,10 @@ def gen_cases(tier, seed):
         for k_ in (1, 2):
             for tl_ in (3, 1000):
                 cases.append({"type": "workers", "kind": kind, "k": k_, "n": 9, "seed": 2 * rnd.randrange(10**5), "tl": tl_, "dbc": "always" if tl_ == 3 else "random"})
+        # a worker's grace period runs out while an actor that needs a while to unwind is still running; the message goes to
+        # the next consumer, which must remain its only holder - also at the moment the old execution finally ends
+        for cleanup in ((2.0,) if tier == "quick" else (0.5, 2.0, 4.0)):
+            cases.append({"type": "unwind", "kind": kind, "cleanup": cleanup, "seed": rnd.randrange(10**6)})
         # one of two saturated workers is told to stop (long graceful period: nothing is cancelled) at loop steps placed in and
         # around its consume loop's pause / slot wait / un-pause hand-over; the other one carries on
         for i in range({"quick": 2, "thorough": 10}[tier]):
@@ -643,6 +647,75 @@ async def workers_stop(loop, case, inject_step, info):
         await w.close()
 
 
+async def unwind(loop, case, out, stats, fps):
+    from repid.message import MessageCategory
+    from rv.wl import World, fire_stop
+
+    kind, cleanup = case["kind"], case["cleanup"]
+    w = World(loop, kind, converter="basic", seed=case["seed"], latency=None if kind == "mem" else 0.001)
+    try:
+        await w.open()
+        r = w.router()
+        w.scripted_actor(r, "act")
+        mb = w.conn.message_broker
+        await mb.queue_declare("default")
+        await w.job("act", "slow", {"do": "hang_cleanup", "hang": 60.0, "cleanup": cleanup}, retries=1, timeout=timedelta(seconds=120), store_result=False).enqueue()
+        worker = w.worker([r], tasks_limit=2, graceful_shutdown_time=0.2, handle_signals=[__import__("signal").SIGUSR1])
+        run_task = loop.create_task(worker.run())
+        for _ in range(400):
+            if w.events("actor_start"):
+                break
+            await asyncio.sleep(0.01)
+        else:
+            out.append(V("harness_or_api_error", kind, "unwind", "the job never started"))
+            run_task.cancel()
+            return
+        fire_stop(loop)
+        try:
+            await asyncio.wait_for(asyncio.shield(run_task), 10.0)
+        except BaseException as exc:  # noqa: BLE001
+            out.append(V("harness_or_api_error", kind, "unwind", f"run() after the stop request: {exc!r}"))
+            run_task.cancel()
+            return
+        t_ret = loop.time()
+        # the next holder
+        B = mb.get_consumer("default", None, 1, MessageCategory.NORMAL)
+        await B.start()
+        held = None
+        try:
+            held = await asyncio.wait_for(B.consume(), 3.0 if kind == "redis" else 1.0)
+        except asyncio.TimeoutError:
+            pass
+        stats["scenarios_judged"] += 1
+        stats["handovers_from_a_slowly_unwinding_execution"] += 1
+        fps.add(f"unwind/{kind}/{cleanup}")
+        if held is None:
+            # (where the message of a force-cancelled execution is right after run() returned is C03's subject)
+            stats["unwind_message_not_yet_back"] += 1
+            await B.finish()
+            return
+        stats["deliveries_seen"] += 1
+        # ... keeps it while the old execution finishes unwinding, and for a while after
+        await asyncio.sleep(cleanup + 1.0)
+        C = mb.get_consumer("default", None, 1, MessageCategory.NORMAL)
+        await C.start()
+        second = None
+        try:
+            second = await asyncio.wait_for(C.consume(), 2.5 if kind == "redis" else 1.0)
+        except asyncio.TimeoutError:
+            pass
+        if second is not None:
+            out.append(V("held_twice", kind, "unwind/handed-out-while-held", f"the worker's grace period ran out while 'slow' was executing (its actor needs {cleanup}s to unwind); run() returned at +{t_ret:.3f}s, consumer B was handed "
+                                                                            f"{held[0].id_} and still holds it, yet consumer C was handed {second[0].id_} at +{loop.time():.3f}s"))
+            await mb.ack(second[0])
+        await mb.ack(held[0])
+        await B.finish()
+        await C.finish()
+        stats["unknown_server_commands"] += w.rig.unknown_commands()
+    finally:
+        await w.close()
+
+
 async def workers(loop, case, out, stats, fps):
     from repid import Job, Worker
     from rv.wl import World, fire_stop
@@ -794,7 +867,7 @@ def run_case(case):
             if len(missing) == case["n"]:
                 out.append(V("not_executed", kind, ctx, f"stop of worker 1 at step +{pt}: no job at all completed; state {[info['snapshot'].get(m) for m in missing[:4]]}"))
     else:
-        fn = {"gated": gated, "mem": mem_offsets, "workers": workers, "relay": relay, "maint": maint}[case["type"]]
+        fn = {"gated": gated, "mem": mem_offsets, "workers": workers, "relay": relay, "maint": maint, "unwind": unwind}[case["type"]]
         args = (out, stats, fps, samples) if case["type"] == "gated" else (out, stats, fps)
         import os
         import time as _time
